@@ -137,6 +137,28 @@ theorem C16_locals_flow :
     Gen.HclYaml.localsBlockFilter = ["locals"] :=
   Pandora.Bridge.HclYaml.locals_flow
 
+/-- no failure between the file and `AmmoConfig` is swallowed in the current source: the error / diagnostics value of
+every fallible call of `ParseHCLFile`, `decodeLocals`, `decodeLocalBlock`, `ConvertHCLToAmmo`, `DecodeMap`,
+`ParseAmmoConfig` is tested by the next statement and returned (regenerated `errFlow`); the loops over the `locals`
+blocks and over their attributes skip nothing — what the model's `none` ⇒ refused rests on -/
+theorem C16_errors_propagated :
+    Gen.HclYaml.errFlow.all Pandora.Bridge.HclYaml.errRowOK = true ∧
+    ("decodeLocals", "decodeLocalBlock", "returned") ∈ Gen.HclYaml.errFlow ∧
+    ("decodeLocalBlock", "(hcl.Expression).Value", "returned") ∈ Gen.HclYaml.errFlow ∧
+    ("ParseHCLFile", "decodeLocals", "returned") ∈ Gen.HclYaml.errFlow ∧
+    ("ParseHCLFile", "gohcl.DecodeBody", "returned") ∈ Gen.HclYaml.errFlow ∧
+    (Gen.HclYaml.localsLoopBranches.all fun b => b == "continue:blk==nil") = true ∧
+    Gen.HclYaml.localBlockBranches = [] ∧ Gen.HclYaml.localBlockStoresAll = true :=
+  ⟨Pandora.Bridge.HclYaml.errors_propagated.1, Pandora.Bridge.HclYaml.errors_propagated.2.1,
+    Pandora.Bridge.HclYaml.errors_propagated.2.2.1, Pandora.Bridge.HclYaml.errors_propagated.2.2.2.2.1,
+    Pandora.Bridge.HclYaml.errors_propagated.2.2.2.2.2.1, Pandora.Bridge.HclYaml.locals_loops_total.1,
+    Pandora.Bridge.HclYaml.locals_loops_total.2.1, Pandora.Bridge.HclYaml.locals_loops_total.2.2⟩
+
+/-- the readers of the decoded `AmmoConfig` in the current source never tell a nil collection from an empty one (no
+comparison of a slice / map with nil, no `reflect.DeepEqual`): identifying the two in the model and in the comparison
+of the two front-ends loses nothing -/
+theorem C16_readers_nil_blind : Gen.HclYaml.readerNilTests = [] := Pandora.Bridge.HclYaml.readers_nil_blind
+
 /-- the locals blocks are processed in source order: a block appended at the end is evaluated under, and merged over,
 the locals of all blocks before it (any number of blocks, any function table) -/
 theorem C16_locals_in_order (F : List (String × String)) (bs : List (List (String × E))) (b : List (String × E)) :
@@ -171,7 +193,8 @@ theorem C16_locals_file (F : List (String × String)) (f : HclFile) (env : Env)
 /-- end to end, from the SYNTAX of the HCL file: whenever `ParseHCLFile` evaluates the file (locals, templates,
 function calls) to a description `d` that has no `<<` map key, the HCL front-end on the file and the YAML front-end on
 `d` written directly in YAML return the same `AmmoConfig` -/
-theorem C16_hcl_file_agrees (f : HclFile) (d : V) (h : evalFile fns f = some d) (hm : hasMergeKey d = false) :
+theorem C16_hcl_file_agrees (f : HclFile) (d : V) (h : hclDescription current fns f = some d)
+    (hm : hasMergeKey d = false) :
     hclFilePath current fns f = yamlPath current d := by
   have h1 : hclFilePath current fns f = hclPath current d := by
     unfold hclFilePath
@@ -182,8 +205,69 @@ theorem C16_hcl_file_agrees (f : HclFile) (d : V) (h : evalFile fns f = some d) 
 /-- a file whose locals or expressions do not evaluate is refused as a whole (nothing half-evaluated is converted) -/
 theorem C16_hcl_file_refused (f : HclFile) (h : evalFile fns f = none) :
     hclFilePath current fns f = .refused := by
-  unfold hclFilePath
+  unfold hclFilePath hclDescription
   rw [h]
+  rfl
+
+/-- … even when the body never uses the local that fails: if some `locals` block does not evaluate under the locals of
+the blocks before it, the file is refused whatever follows it and whatever the body is (any function table, any
+tables) -/
+theorem C16_unevaluated_local_refuses (T : Tables) (F : List (String × String)) (bs : List (List (String × E)))
+    (b : List (String × E)) (rest : List (List (String × E))) (body : E) (env : Env)
+    (h1 : evalLocals F [] bs = some env) (h2 : evalM F env b = none) :
+    hclFilePath T F ⟨bs ++ b :: rest, body⟩ = .refused := by
+  have h : evalFile F ⟨bs ++ b :: rest, body⟩ = none := by
+    unfold evalFile
+    simp only
+    rw [evalLocals_append_list, h1]
+    simp [evalLocals, localsStep, h2]
+  unfold hclFilePath hclDescription
+  rw [h]
+  rfl
+
+/-- the function table is told apart entry by entry: for any two different registered functions (other than `index`
+against `element`, see `C16_index_refines_element`) one of the witness calls of `fnWitnesses` — each of which the
+harness spells in a scenario file on every run — has a different value, or fails, when the first is replaced by the
+second -/
+theorem C16_functions_distinguished (p q : String × String) (hp : p ∈ docFunctions) (hq : q ∈ docFunctions)
+    (hne : p.2 ≠ q.2) (hie : ¬ (p.2 = "IndexFunc" ∧ q.2 = "ElementFunc")) :
+    ∃ w ∈ witnessesOf p.2, applyFn p.2 w ≠ applyFn q.2 w := by
+  have hall : (docFunctions.all fun p => docFunctions.all fun q =>
+      p.2 == q.2 || (p.2 == "IndexFunc" && q.2 == "ElementFunc") ||
+      (witnessesOf p.2).any fun w => !beqOV (applyFn p.2 w) (applyFn q.2 w)) = true := by decide
+  rw [List.all_eq_true] at hall
+  have h1 := hall p hp
+  rw [List.all_eq_true] at h1
+  have h2 := h1 q hq
+  simp only [Bool.or_eq_true, beq_iff_eq, Bool.and_eq_true, List.any_eq_true, Bool.not_eq_true'] at h2
+  rcases h2 with (h2 | h2) | h2
+  · exact absurd h2 hne
+  · exact absurd h2 hie
+  · obtain ⟨w, hw, hb⟩ := h2
+    exact ⟨w, hw, ne_of_beqOV_false hb⟩
+
+/-- on tuples `index` is a restriction of `element`: wherever `index(list, i)` is defined, `element(list, i)` is the
+same member (`element` additionally wraps around) -/
+theorem C16_index_refines_element (args : List V) (v : V) (h : applyFn "IndexFunc" args = some v) :
+    applyFn "ElementFunc" args = some v := by
+  match args, h with
+  | [.seq xs, i], h =>
+    simp only [applyFn] at h ⊢
+    cases hn : natOf i with
+    | none => simp [hn] at h
+    | some n =>
+      simp only [hn, Option.bind_some] at h ⊢
+      have hlt : n < xs.length := by
+        rcases Nat.lt_or_ge n xs.length with h' | h'
+        · exact h'
+        · rw [List.getElem?_eq_none h'] at h
+          cases h
+      have hne : xs.isEmpty = false := by
+        cases xs with
+        | nil => simp at hlt
+        | cons _ _ => rfl
+      rw [hne, Nat.mod_eq_of_lt hlt]
+      simpa using h
 
 /-! ### identical ammo -/
 
